@@ -74,7 +74,11 @@ def check(sid, pids, tier="quick", nproc=None):
             lines = [l.strip() for l in r.stdout.splitlines() if l.startswith("VIOLATION") or l.startswith("  #") or l.startswith("HARNESS")]
             # re-read json in case of concurrent updates
             meta = json.load(open(mp))
-            meta.setdefault("checks", {})["%s:%s" % (pid, tier)] = dict(rc=r.returncode, detected=(r.returncode == 1 and any(l.startswith("VIOLATION") for l in lines)),
+            key = "%s:%s" % (pid, tier)
+            head = subprocess.run(["git", "-C", HERE, "rev-parse", "--short", "HEAD"], capture_output=True, text=True).stdout.strip()
+            if key in meta.setdefault("checks", {}):
+                meta.setdefault("history", []).append(dict(meta["checks"][key], check=key))
+            meta["checks"][key] = dict(verif_commit=head, at=time.strftime("%Y-%m-%d %H:%M"), rc=r.returncode, detected=(r.returncode == 1 and any(l.startswith("VIOLATION") for l in lines)),
                                                                         lines=[l for l in lines if l.startswith("#")][:4], wall_s=round(time.time() - t0, 1))
             json.dump(meta, open(mp, "w"), indent=1)
             print(sid, pid, tier, "rc=%d" % r.returncode, [l for l in lines if l.startswith("#")][:2] or r.stdout.strip().splitlines()[-1:])
